@@ -154,6 +154,25 @@ for sel in sels:
     want = [pf.levels[0].data[b][..., 0] for b in (range(n)[sel] if isinstance(sel, slice) else sel)]
     ok = len(got) == len(want) and all(g.shape == w.shape and g.tobytes(order='F') == np.asarray(w, dtype='<f8').tobytes(order='F') for g, w in zip(got, want))
     print('SEL', repr(sel), 'ok' if ok else 'WRONG', flush=True)
+# the whole-level iterator with the real pool on a level spread over MANY binary files (more per-file tasks than workers:
+# results keep arriving after the first one has been handed over)
+nb = 2 * (os.cpu_count() or 4) + 7
+pf2 = gen.PF()
+pf2.ndims, pf2.fields, pf2.geo_low, pf2.dx0, pf2.n0, pf2.bf, pf2.meta = 3, ['a', 'b'], [0.0] * 3, [1.0] * 3, [2 * nb, 2, 2], 2, {}
+lev = gen.Level()
+for b in range(nb):
+    lev.boxes.append(((2 * b, 0, 0), (2 * b + 1, 1, 1)))
+    lev.data.append(np.asfortranarray(np.arange(16, dtype='<f8').reshape((2, 2, 2, 2), order='F') + 100.0 * b))
+order = list(range(nb))
+rng.shuffle(order)
+lev.files = [("Cell_D_%05d" % k, [b]) for k, b in enumerate(order)]
+pf2.levels = [lev]
+p2 = os.path.join(d, 'plt_many_files')
+gen.write_plotfile(pf2, p2)
+want = sorted(np.asarray(a[..., 1], dtype='<f8').tobytes(order='F') for a in lev.data)
+for rep in range(3):
+    got = sorted(np.asarray(a, dtype='<f8').tobytes(order='F') for a in PlotfileCooker(p2)['b'][0])
+    print('ALL', nb, 'files, pass', rep, 'ok' if got == want else 'WRONG', flush=True)
 print('DONE', flush=True)
 '''
 
@@ -163,7 +182,7 @@ def real_pool_selection_case(seed):
     box selections must be yielded and the iteration must END - run in a child process under a watchdog"""
     import subprocess
     import sys
-    out = dict(evals=1, keys=[core.khash('real-pool-iter', seed)], dist={'case=on-demand iterator with the real pool (empty selections included)': 1},
+    out = dict(evals=1, keys=[core.khash('real-pool-iter', seed)], dist={'case=on-demand iterator with the real pool (empty selections included), then the level iterator over 2 x CPUs + 7 binary files': 1},
                samples=[], violations=[], disagreements=[])
     root = core.scratch_dir(f"c15_real_{seed}")
     os.makedirs(root)
@@ -171,17 +190,22 @@ def real_pool_selection_case(seed):
     desc = dict(seed=seed, case_fn='real_pool_selection_case')
     try:
         r = subprocess.run([sys.executable, '-c', REAL_POOL_SCRIPT, str(seed), root], env=env, capture_output=True, text=True, timeout=90)
-        lines = [l for l in r.stdout.splitlines() if l.startswith(('SEL', 'DONE'))]
+        lines = [l for l in r.stdout.splitlines() if l.startswith(('SEL', 'ALL', 'DONE'))]
         if 'DONE' not in lines:
             out['violations'].append(dict(desc, kind='iter-selection', what='the on-demand iterator raised or died: ' + (r.stderr.strip().splitlines() or ['?'])[-1][:300]))
         elif any(l.endswith('WRONG') for l in lines):
-            out['violations'].append(dict(desc, kind='iter-selection', what='iter(selection) did not yield the selected boxes in the requested order: ' +
-                                          '; '.join(l for l in lines if l.endswith('WRONG'))))
+            out['violations'].append(dict(desc, kind='iter-selection', what='with the real pool, iter(selection) did not yield the selected boxes in the requested order '
+                                          'or the level iterator did not yield every box once: ' + '; '.join(l for l in lines if l.endswith('WRONG'))))
     except subprocess.TimeoutExpired as e:
-        done = [l for l in (e.stdout.decode() if isinstance(e.stdout, bytes) else (e.stdout or '')).splitlines() if l.startswith('SEL')]
-        out['violations'].append(dict(desc, kind='iter-selection',
-                                      what=f"iter(selection) with the real process pool did not terminate within 90 s (selections completed before the hang: {len(done)}; "
-                                           f"the next one is number {len(done)} of [empty slice, empty slice beyond the end, reversed-bounds slice, empty list, ...])"))
+        allout = (e.stdout.decode() if isinstance(e.stdout, bytes) else (e.stdout or '')).splitlines()
+        done = [l for l in allout if l.startswith('SEL')]
+        if len(done) >= 7:
+            what = ("iterating over a level spread over many binary files with the real process pool did not terminate within 90 s "
+                    f"(passes completed before the hang: {len([l for l in allout if l.startswith('ALL')])})")
+        else:
+            what = (f"iter(selection) with the real process pool did not terminate within 90 s (selections completed before the hang: {len(done)}; "
+                    f"the next one is number {len(done)} of [empty slice, empty slice beyond the end, reversed-bounds slice, empty list, ...])")
+        out['violations'].append(dict(desc, kind='iter-selection', what=what))
     return out
 
 
